@@ -30,9 +30,10 @@ def fh(x):
 ID = "C08"
 FEATURES = []
 TIERS = {
-    "quick": [{"N": 4, "K": 4, "covers": ["cascade2", "derived"]}],
-    "thorough": [{"N": 4, "K": 5, "covers": ["cascade2", "derived", "survivor"]},
-                 {"N": 5, "K": 4, "covers": ["cascade2", "derived"]}],
+    "quick": [{"N": 3, "K": 5, "covers": ["cascade2", "derived", "survivor"]}],
+    "thorough": [{"N": 4, "K": 4, "covers": ["cascade2", "derived"]},
+                 {"N": 4, "K": 5, "covers": ["cascade2", "derived", "survivor"]},
+                 {"N": 4, "K": 6, "covers": ["cascade2", "derived", "survivor"]}],
 }
 ASSUMPTIONS = [
     "every premise is live when its justification is recorded; handles are fresh increasing integers (as allocated by WorkingMemory)",
@@ -72,6 +73,7 @@ def run(N, K, covers=(), witness=False):
     saw_derived_retract = False
     ops = []
     for step in range(K):
+        h.tag = 'step%d' % step
         op = h.int("op%d" % step, 0, 3).v
         tgt = h.int("tgt%d" % step, 1, N).v
         bits = {x: h.bool("m%d_%d" % (step, x)) for x in HS_}
